@@ -43,12 +43,15 @@ def names_for(seq, mode):
     return names
 
 
-def build(names, mode, labels, offset, koff=0):
+def build(names, mode, labels, offset, koff=0, noresid=False):
     """node keys koff..koff+n-1 (sequence files give 0..n-1, .json files may number their nodes from 1 or anywhere)"""
     g = nx.Graph()
     n = len(names)
     for i, name in enumerate(names):
-        g.add_node(i + koff, resname=name, resid=i + 1 + offset)
+        if noresid:
+            g.add_node(i + koff, resname=name)        # residue ids left to MetaMolecule (a .json file without resid fields)
+        else:
+            g.add_node(i + koff, resname=name, resid=i + 1 + offset)
     for i in range(n - 1):
         g.add_edge(i + koff, i + 1 + koff)
         if labels:
@@ -73,18 +76,18 @@ def graph_digest(mm, nodes):
     return nd, ed
 
 
-def check_one(seq, mode, labels, offset, koff=0):
+def check_one(seq, mode, labels, offset, koff=0, noresid=False):
     from polyply.src.meta_molecule import MetaMolecule
     from polyply.src.gen_dna import complement_dsDNA
     viols = []
     names = names_for(seq, mode)
     n = len(names)
-    case = {"seq": seq, "mode": mode, "labels": labels, "offset": offset, "koff": koff}
+    case = {"seq": seq, "mode": mode, "labels": labels, "offset": offset, "koff": koff, "noresid": noresid}
 
     def bad(assertion, msg, tags=()):
         viols.append(dict(assertion=assertion, tags=list(tags), message=msg, case=case, detail={}))
 
-    g = build(names, mode, labels, offset, koff)
+    g = build(names, mode, labels, offset, koff, noresid)
     mm = MetaMolecule(g, force_field=None, mol_name="dna")
     before = graph_digest(mm, range(koff, koff + n))
     try:
@@ -223,7 +226,7 @@ def run_case(case):
         if case.get("reject"):
             v = check_reject(case["seq"], case["mode"], case["pos"], case["unk"])
         else:
-            v = check_one(case["seq"], case["mode"], case["labels"], case["offset"], case.get("koff", 0))
+            v = check_one(case["seq"], case["mode"], case["labels"], case["offset"], case.get("koff", 0), case.get("noresid", False))
         return dict(evals=1, keys=[], violations=v, stats={})
     evals, keys, viols = 0, [], []
     offsets = [0, 4]
@@ -235,6 +238,12 @@ def run_case(case):
                 continue
             if mode == "ter" and n < 2:
                 continue
+            if n <= 4:
+                # residue ids not given in the input: MetaMolecule numbers the residues itself
+                viols += check_one(seq, mode, False, 0, 0, noresid=True)
+                evals += 1
+                if n >= 2:
+                    keys.append(f"{mode}:{seq}:noresid")
             for labels in (False, True):
                 for off in offsets:
                     if off and case["tier"] == "quick" and n > 4:
